@@ -223,19 +223,27 @@ structure St where
   pausedAt : Option Nat := none   -- plain pause returned: number of starts allowed after it
   lateStarts : Nat := 0
   maxLim : Nat := 1
+  openP : List (Nat × Bool) := [] -- open Pause/barrier calls: cid ↦ a Resume/Restart was open at, or called during, the call
   deriving Repr
 
 def onEvent (s : St) (b : Book) (o : Obs) (b' : Book) : St × List Viol :=
   match o with
-  | .call _ _ c =>
+  | .call _ cid c =>
     let s := match c with | .tune n => { s with maxLim := max s.maxLim (C02.limOf 16 n) } | _ => s
-    if isResumer c || c == .cancelCtx then ({ s with frozen := false, pausedAt := none, lateStarts := 0 }, []) else (s, [])
-  | .ret _ _ c (.life .none st) =>
-    if b'.anyOpen isResumer then (s, [])
+    if isResumer c || c == .cancelCtx then
+      ({ s with frozen := false, pausedAt := none, lateStarts := 0, openP := s.openP.map (fun (i, _) => (i, true)) }, [])
+    else if isBarrier c || c == .pause then ({ s with openP := (cid, b.anyOpen isResumer) :: s.openP }, [])
+    else (s, [])
+  | .ret _ cid c (.life .none st) =>
+    -- a Resume/Restart that overlapped the call may have taken effect after it: the call then promises nothing
+    let overlapped := (s.openP.find? (·.1 == cid)).map (·.2) |>.getD false
+    let s := { s with openP := s.openP.filter (·.1 != cid) }
+    if overlapped || b'.anyOpen isResumer then (s, [])
     else if isBarrier c && (st == some .paused || st == some .stopped) then ({ s with frozen := true }, [])
     else if c == .pause && st == some .paused && !s.frozen then
       ({ s with pausedAt := some (s.maxLim - b.inflight), lateStarts := 0 }, [])
     else (s, [])
+  | .ret _ cid _ _ => ({ s with openP := s.openP.filter (·.1 != cid) }, [])
   | .enter _ k _ =>
     if s.frozen then (s, [s!"job {k} started after a PauseAndWait/Stop/WaitAndStop had returned and before any Resume/Restart"])
     else match s.pausedAt with
